@@ -3,6 +3,7 @@ module verif/harness
 go 1.21
 
 require (
+	github.com/ProtonMail/go-crypto v1.0.0
 	github.com/fclairamb/go-log v0.5.0
 	github.com/pojntfx/stfs v0.0.0
 	github.com/spf13/afero v1.11.0
@@ -12,7 +13,6 @@ require (
 require (
 	aead.dev/minisign v0.3.0 // indirect
 	filippo.io/age v1.2.0 // indirect
-	github.com/ProtonMail/go-crypto v1.0.0 // indirect
 	github.com/ProtonMail/go-mime v0.0.0-20230322103455-7d82a3887f2f // indirect
 	github.com/ProtonMail/gopenpgp/v2 v2.7.5 // indirect
 	github.com/andybalholm/brotli v1.1.0 // indirect
